@@ -1,6 +1,7 @@
 package main
 
 import (
+	"go/token"
 	"strconv"
 	"fmt"
 	"go/types"
@@ -213,6 +214,7 @@ func genFunction(ld *Loader, specs *Specs, fn *ssa.Function, ct *Contract, opts 
 			// always present (so the baseline tracks it); the per-call-site obligations above carry the failures
 			e.oblige(&Obl{Name: fmt.Sprintf("%s#nocall:%s", tr.label, nc.Label), Kind: "nocall", Props: nc.Props, Cond: tTrue, Goal: tTrue, Pos: nc.Where, Fn: tr.label})
 		}
+		ctxFlowObligations(g.ld, e, fn, ct, tr.label)
 		for _, cc := range ct.CallCounts {
 			// structural: the number of call sites of a callee in this function is fixed by the contract
 			fs := strings.Fields(cc.Src)
@@ -731,6 +733,7 @@ func genStructural(ld *Loader, specs *Specs, fn *ssa.Function, ct *Contract) *Fu
 		}
 	}
 	scan(fn)
+	ctxFlowObligations(ld, e, fn, ct, vc.Label)
 	for _, nc := range ct.NoCalls {
 		e.oblige(&Obl{Name: fmt.Sprintf("%s#nocall:%s", vc.Label, nc.Label), Kind: "nocall", Props: nc.Props, Cond: tTrue, Goal: tTrue, Pos: nc.Where, Fn: vc.Label})
 	}
@@ -738,4 +741,163 @@ func genStructural(ld *Loader, specs *Specs, fn *ssa.Function, ct *Contract) *Fu
 	vc.Obls = e.obls
 	vc.Callees = map[string]string{}
 	return vc
+}
+
+func isContextType(t types.Type) bool {
+	n, ok := t.(*types.Named)
+	return ok && n.Obj().Pkg() != nil && n.Obj().Pkg().Path() == "context" && n.Obj().Name() == "Context"
+}
+
+func ctxParams(fn *ssa.Function) []*ssa.Parameter {
+	var out []*ssa.Parameter
+	for _, p := range fn.Params {
+		if isContextType(p.Type()) {
+			out = append(out, p)
+		}
+	}
+	return out
+}
+
+// ctxFlowObligations: a structural data-flow obligation. In a function that receives a context.Context, every
+// context.Context value it hands to a callee must derive from that parameter: the parameter itself, a context made from
+// a derived one by the context package's With* constructors (WithoutCancel excepted), a phi or a captured/reassigned
+// variable all of whose definitions derive from it. Anything else (context.Background(), a context kept in a field,
+// WithoutCancel) detaches the callee from the caller's cancellation.
+func ctxFlowObligations(ld *Loader, e *Emitter, fn *ssa.Function, ct *Contract, label string) {
+	if ct == nil || len(ct.CtxFlow) == 0 {
+		return
+	}
+	cl := ct.CtxFlow[0]
+	// closures: free variable -> the binding at the MakeClosure site
+	bind := map[*ssa.FreeVar]ssa.Value{}
+	var fns []*ssa.Function
+	var collect func(f *ssa.Function)
+	collect = func(f *ssa.Function) {
+		fns = append(fns, f)
+		for _, b := range f.Blocks {
+			for _, in := range b.Instrs {
+				if mc, ok := in.(*ssa.MakeClosure); ok {
+					if cf, ok := mc.Fn.(*ssa.Function); ok {
+						for i, fv := range cf.FreeVars {
+							if i < len(mc.Bindings) {
+								bind[fv] = mc.Bindings[i]
+							}
+						}
+					}
+				}
+			}
+		}
+		for _, af := range f.AnonFuncs {
+			collect(af)
+		}
+	}
+	collect(fn)
+	resolve := func(v ssa.Value) ssa.Value {
+		for i := 0; i < 8; i++ {
+			fv, ok := v.(*ssa.FreeVar)
+			if !ok {
+				break
+			}
+			bv, ok := bind[fv]
+			if !ok {
+				break
+			}
+			v = bv
+		}
+		return v
+	}
+	memo := map[ssa.Value]int{} // 1 derived, 2 not, 3 in progress (optimistic for cycles)
+	var derived func(v ssa.Value) bool
+	storesDerived := func(cell ssa.Value) bool {
+		any := false
+		for _, f := range fns {
+			for _, b := range f.Blocks {
+				for _, in := range b.Instrs {
+					if st, ok := in.(*ssa.Store); ok {
+						if resolve(st.Addr) == cell {
+							any = true
+							if !derived(st.Val) {
+								return false
+							}
+						}
+					}
+				}
+			}
+		}
+		return any
+	}
+	derived = func(v ssa.Value) bool {
+		switch memo[v] {
+		case 1, 3:
+			return true
+		case 2:
+			return false
+		}
+		memo[v] = 3
+		r := false
+		switch x := v.(type) {
+		case *ssa.Parameter:
+			r = x.Parent() == fn && isContextType(x.Type())
+		case *ssa.FreeVar:
+			if bv, ok := bind[x]; ok {
+				r = derived(bv)
+			}
+		case *ssa.Phi:
+			r = true
+			for _, ed := range x.Edges {
+				if !derived(ed) {
+					r = false
+				}
+			}
+		case *ssa.ChangeInterface:
+			r = derived(x.X)
+		case *ssa.MakeInterface:
+			r = derived(x.X)
+		case *ssa.Extract:
+			r = derived(x.Tuple)
+		case *ssa.Call:
+			if sc := x.Call.StaticCallee(); sc != nil && sc.Pkg != nil && sc.Pkg.Pkg.Path() == "context" &&
+				strings.HasPrefix(sc.Name(), "With") && sc.Name() != "WithoutCancel" && len(x.Call.Args) > 0 {
+				r = derived(x.Call.Args[0])
+			}
+		case *ssa.UnOp:
+			if x.Op == token.MUL {
+				cell := resolve(x.X)
+				if _, isAlloc := cell.(*ssa.Alloc); isAlloc {
+					r = storesDerived(cell)
+				}
+			}
+		}
+		if r {
+			memo[v] = 1
+		} else {
+			memo[v] = 2
+		}
+		return r
+	}
+	n := 0
+	for _, f := range fns {
+		for _, b := range f.Blocks {
+			for _, in := range b.Instrs {
+				c, ok := in.(ssa.CallInstruction)
+				if !ok {
+					continue
+				}
+				for _, a := range c.Common().Args {
+					if !isContextType(a.Type()) || derived(a) {
+						continue
+					}
+					n++
+					pos := ""
+					if in.Pos().IsValid() {
+						pp := ld.fset.Position(in.Pos())
+						pos = fmt.Sprintf("%s:%d", strings.TrimPrefix(pp.Filename, "/repo/"), pp.Line)
+					}
+					e.oblige(&Obl{Name: fmt.Sprintf("%s#ctxflow:%s@%d", label, cl.Label, n), Kind: "nocall", Props: cl.Props,
+						Cond: tTrue, Goal: tFalse, Pos: pos, Fn: label})
+				}
+			}
+		}
+	}
+	e.oblige(&Obl{Name: fmt.Sprintf("%s#ctxflow:%s", label, cl.Label), Kind: "nocall", Props: cl.Props, Cond: tTrue, Goal: tTrue, Pos: cl.Where, Fn: label})
 }
